@@ -8,7 +8,7 @@ use std::borrow::Borrow;
 use std::collections::{BTreeSet, HashSet};
 use std::hash::{Hash, Hasher};
 
-pub const RULE: &str = "cases: the C07 pair workload (equal respellings, near-equal perturbations, %XX patterns incl. non-UTF-8 octets) for every comparable type, plus batches of 8-24 related values that are sorted with the library's cmp (all i<j pairs re-checked) and inserted into HashSet/HashMap/BTreeSet keyed by the owned form and looked up through each Borrow view the library provides between its own types (XBuf->X; Iri/IriBuf->IriRef; Uri/UriBuf->UriRef, Iri, IriRef). hash uses a fixed FNV hasher and DefaultHasher. Non-trivial = pairs of textually different values / batches; distinct by case";
+pub const RULE: &str = "cases: the C07 pair workload (equal respellings, near-equal perturbations, %XX patterns incl. non-UTF-8 octets) for every comparable type, plus batches of 8-24 related values that are sorted with the library's cmp (all i<j pairs re-checked) and inserted into HashSet/HashMap/BTreeSet keyed by the owned form and looked up through each Borrow view the library provides between its own types (XBuf->X; Iri/IriBuf->IriRef; Uri/UriBuf->UriRef, Iri, IriRef). hash uses a fixed FNV hasher and DefaultHasher. The FNV hasher separates consecutive write calls (so a Hash impl whose call sequence depends on the spelling is seen, as FxHash/aHash users would). Also long shared prefixes, sentinel octets, the authority shape product, aliasing views, and batches of stand-alone Path values (absolute, relative, empty mixed). Non-trivial = pairs of textually different values / batches; distinct by case";
 
 pub const MANDATORY: &[&str] = &["law:equal-pair", "law:unequal-pair", "pair:both-full", "batch", "batch:has-full", "xfam:uri-as-iri", "comp:Authority", "comp:Path", "comp:UserInfo", "comp:Host", "comp:Segment", "comp:Query", "comp:Fragment", "comp:Scheme", "comp:Port"];
 
